@@ -135,8 +135,9 @@ def reference_update(rec, lr, alpha, torch):
     dLU = [z(g, p) for g, p in zip(dLU, U)]
     expW, expU = [], []
     for w, gp, ga in zip(W, dLP, dLA):
-        n2 = float((ga * ga).sum())
-        proj = (float((gp * ga).sum()) / n2) * ga if n2 > 0 else torch.zeros_like(ga)
+        gpd, gad = gp.double(), ga.double()  # projection coefficient in float64: |dLA|^2 underflows in float32 for tiny gradients
+        n2 = float((gad * gad).sum())
+        proj = ((float((gpd * gad).sum()) / n2) * gad).float() if n2 > 0 else torch.zeros_like(ga)
         expW.append(w.detach() - lr * (gp - proj - alpha * ga))
     for u, gu in zip(U, dLU):
         expU.append(u.detach() - lr * gu)
@@ -195,7 +196,15 @@ def run_case(case):
                     break  # parameters already non-finite from an earlier (reported) step
                 for ti, (w0, gp, ga, ew, ow) in enumerate(zip(W0, dLP, dLA, expW, rec["W_after"])):
                     rows = w0.shape[0] if w0.dim() == 2 else 1
-                    zero_ga = float((ga * ga).sum()) == 0.0
+                    gnorm = float(ga.double().norm())
+                    zero_ga = gnorm == 0.0
+                    if (not torch.isfinite(ew).all() or float(w0.abs().max()) > 1e12 or not torch.isfinite(gp).all() or not torch.isfinite(ga).all()
+                            or float(gp.abs().max()) > 1e12 or float(ga.abs().max()) > 1e12):
+                        out["classes"].add("diverged_training_not_asserted")
+                        break  # the documented update itself is non-finite / astronomically large: training diverged, nothing to compare
+                    if 0.0 < gnorm < 1e-10:
+                        out["classes"].add("tiny_adversary_gradient_not_asserted")
+                        continue  # the engine's epsilon guard dominates a gradient this small; the statement does not fix that regime
                     if zero_ga:
                         out["classes"].add("zero_adversary_gradient_tensor")
                     if rows >= 2 and w0.dim() == 2 and w0.shape[1] >= 1 and not zero_ga:
@@ -218,8 +227,9 @@ def run_case(case):
                     if not zero_ga:
                         gobs = (w0 - ow) / lr
                         ortho = float(((gobs + alpha * ga) * ga).sum())
-                        scale = float(ga.norm()) * (float(gobs.norm()) + alpha * float(ga.norm())) + 1e-12
-                        if abs(ortho) > 2e-3 * scale + 1e-5:
+                        # the cancellation happens at the magnitude of the UNPROJECTED gradient: scale with |dLP| (not with the possibly tiny result)
+                        scale = float(ga.norm()) * (float(gp.norm()) + float(gobs.norm()) + alpha * float(ga.norm())) + 1e-12
+                        if abs(ortho) > 1e-4 * scale + 1e-6 + 4e-7 * (float(w0.abs().max()) / lr + 1.0) * float(ga.abs().sum()):
                             V.append(viol("C16:orthogonality", "step %d tensor %d: <g + alpha*dLA, dLA>_F = %.4g (scale %.3g) (%s)" % (si, ti, ortho, scale, ctx)))
                             break
                 else:
